@@ -149,8 +149,12 @@ Fixpoint walk_ok (msize : N) (s : list N) (evs : list obs_event) : bool :=
         if negb (hdr_check msize size) then (ev_kind e =? 0) && (ev_consumed e =? 7) && is_nil' r
         else if size <=? len s then
           ((ev_kind e =? 1) || (ev_kind e =? 2)) && (ev_consumed e =? size) && walk_ok msize (dropN size s) r
-        else (* the stream ends inside this frame: never a message *)
-          negb (ev_kind e =? 2) && (ev_consumed e <=? len s) && walk_ok msize (dropN (ev_consumed e) s) r
+        else (* the stream ends inside this frame: a connection error; the rejection of a frame that was
+                being thrown away (unknown type, fixed part does not fit) may still be reported; never a
+                message and never a decoder verdict on a body that did not arrive *)
+          ((ev_kind e =? 0) ||
+           ((ev_kind e =? 1) && match plan_of lookup_reg (hdr_tag s) (hdr_typ s) (size - 7) with PDiscard _ => true | _ => false end)) &&
+          (ev_consumed e <=? len s) && walk_ok msize (dropN (ev_consumed e) s) r
   end.
 
 (** frames a server must answer: well-delimited ones before the first refused / incomplete header *)
